@@ -4,7 +4,11 @@ package types
 
 // Access-only helpers for check C18: lock probe and the list of tracked rounds of a HeightVoteSet.
 
-import "sort"
+import (
+	"fmt"
+	"sort"
+	"strings"
+)
 
 // VerifC18TryLock reports whether the height vote set's mutex could be taken (and releases it).
 func (hvs *HeightVoteSet) VerifC18TryLock() bool {
@@ -31,4 +35,30 @@ func (hvs *HeightVoteSet) VerifC18Rounds() []uint32 {
 	}
 	sort.Slice(out, func(i, j int) bool { return out[i] < out[j] })
 	return out
+}
+
+// VerifC18Claims is a read-only digest of the peer-influenced bookkeeping of the height vote set:
+// the catch-up rounds granted to peers and the majority claims recorded in every round's vote sets.
+func (hvs *HeightVoteSet) VerifC18Claims() (digest string, count int) {
+	if hvs == nil {
+		return "", 0
+	}
+	hvs.mtx.Lock()
+	defer hvs.mtx.Unlock()
+	var l []string
+	for p, rs := range hvs.peerCatchupRounds {
+		l = append(l, fmt.Sprintf("c:%s=%v", string(p), rs))
+		count += 1000000 * len(rs)
+	}
+	for r, rvs := range hvs.roundVoteSets {
+		if c := rvs.Prevotes.VerifC18Claims(); c != "" {
+			l = append(l, fmt.Sprintf("r%d/pv:%s", r, c))
+		}
+		if c := rvs.Precommits.VerifC18Claims(); c != "" {
+			l = append(l, fmt.Sprintf("r%d/pc:%s", r, c))
+		}
+		count += rvs.Prevotes.VerifC18ClaimCount() + rvs.Precommits.VerifC18ClaimCount()
+	}
+	sort.Strings(l)
+	return strings.Join(l, " "), count
 }
